@@ -1,6 +1,424 @@
 //! Full-stack part of C14: malformed raw frames injected into live machines.
-use crate::{Delta, Env};
 
-pub fn inject(_env: &Env, _k: u64, _d: &mut Delta, _rng: &mut rand::rngs::SmallRng) {
-    // filled in below once net.rs exists
+use crate::model::wire::{self, Ip4, Tcp as WTcp};
+use crate::net::*;
+use crate::{Delta, Env, RngExt};
+use elvis::applications::{ArpRouter, DhcpServer};
+use elvis::ip_generator::IpRange;
+use elvis_core::{
+    network::{Mac, NetworkBuilder},
+    protocols::{
+        arp::{
+            arp_parsing::ArpPacket,
+            subnetting::{Ipv4Mask, Ipv4Net, SubnetInfo},
+        },
+        dhcp::{dhcp_client::DhcpClient, dhcp_parsing::DhcpMessage},
+        ipv4::{Ipv4, Ipv4Address, Recipient},
+        Arp, DnsServer, Endpoint, Endpoints, Pci, SocketAPI, Tcp, TcpListener, TcpStream, Udp,
+    },
+    run_internet_with_timeout, ExitStatus, IpTable, Machine, Message, Network,
+};
+use rand::Rng;
+use serde_json::{json, Value};
+use std::{
+    any::TypeId,
+    sync::{
+        atomic::{AtomicBool, Ordering},
+        Arc, Mutex,
+    },
+    time::Duration,
+};
+
+fn ip(x: u32) -> Ipv4Address {
+    Ipv4Address::from(x)
+}
+
+const A: u32 = 0x0A00_0001;
+const B: u32 = 0x0A00_0002;
+const R0: u32 = 0x0A00_00FE;
+const R1: u32 = 0x0A00_01FE;
+const C: u32 = 0x0A00_0101;
+const DHCP: u32 = 0x0A00_0043;
+const MARK: [u8; 4] = [0xBA, 0xDB, 0xAD, 0x00];
+
+#[derive(Clone, Debug)]
+struct Inj {
+    at_ms: u64,
+    /// which protocol id the frame is addressed to: 0 = Ipv4, 1 = Arp
+    proto: u8,
+    dest: Option<Mac>,
+    bytes: Vec<u8>,
+    what: String,
+}
+
+fn gen_injections(rng: &mut impl Rng, macs: &[Mac]) -> Vec<Inj> {
+    let n = rng.gen_range(20..=80);
+    let mut out = vec![];
+    for _ in 0..n {
+        let target_ip = *rng.pick(&[A, B, R0, C, DHCP, 0x0103_0307, 0xFFFF_FFFF]);
+        let dest = match rng.gen_range(0..4) {
+            0 => None,
+            1 => Some(Network::BROADCAST_MAC),
+            _ => Some(*rng.pick(macs)),
+        };
+        let mut payload = MARK.to_vec();
+        payload.extend_from_slice(&rng.bytes_between(0, 40));
+        let ip4 = Ip4 { tos: 0, total_length: 0, id: rng.gen(), df: false, mf: false, offset: 0, ttl: 30, protocol: 17, src: 0x0A00_0066u32.to_be_bytes(), dst: target_ip.to_be_bytes() };
+        let udp_to = |port: u16, pl: &[u8]| {
+            let mut u = wire::pack_udp(ip4.src, 4444, ip4.dst, port, pl, false);
+            u.extend_from_slice(pl);
+            u
+        };
+        let wrap = |mut h: Ip4, body: Vec<u8>| {
+            h.total_length = (20 + body.len()) as u16;
+            let mut f = wire::pack_ipv4(&h, false);
+            f.extend_from_slice(&body);
+            f
+        };
+        let kind = rng.gen_range(0..16);
+        let (proto, bytes, what): (u8, Vec<u8>, &str) = match kind {
+            0 => (0, rng.bytes_between(0, 60), "random bytes as IPv4"),
+            1 => {
+                let f = wrap(ip4, udp_to(7000, &payload));
+                (0, f[..rng.gen_range(0..20)].to_vec(), "truncated IPv4 header")
+            }
+            2 => {
+                let mut f = wrap(ip4, udp_to(7000, &payload));
+                f[0] = *rng.pick(&[0x55u8, 0x46, 0x40, 0x4f, 0x00]);
+                (0, f, "bad version / IHL")
+            }
+            3 => {
+                let mut f = wrap(ip4, udp_to(7000, &payload));
+                let l: u16 = rng.gen_range(0..20);
+                f[2..4].copy_from_slice(&l.to_be_bytes());
+                (0, f, "IPv4 total_length < 20")
+            }
+            4 => {
+                let mut f = wrap(ip4, udp_to(7000, &payload));
+                f[6] |= 0x80;
+                (0, f, "IPv4 reserved flag")
+            }
+            5 => {
+                let mut u = udp_to(7000, &payload);
+                let l = u16::from_be_bytes([u[4], u[5]]).wrapping_add(rng.gen_range(1..9));
+                u[4..6].copy_from_slice(&l.to_be_bytes());
+                (0, wrap(ip4, u), "UDP length mismatch")
+            }
+            6 => {
+                let u = udp_to(7000, &payload);
+                (0, wrap(ip4, u[..rng.gen_range(0..8)].to_vec()), "truncated UDP header")
+            }
+            7 => {
+                let t = WTcp { sp: 4444, dp: 8080, seq: rng.gen(), ack: rng.gen(), flags: rng.gen_range(0..64), wnd: rng.gen(), urg: 0 };
+                let mut seg = wire::pack_tcp(ip4.src, ip4.dst, &t, &payload, false);
+                seg[12] = rng.gen_range(0..16) << 4;
+                seg.extend_from_slice(&payload);
+                let mut h = ip4;
+                h.protocol = 6;
+                (0, wrap(h, seg), "TCP bad data offset")
+            }
+            8 => {
+                let t = WTcp { sp: 4444, dp: 8080, seq: 1, ack: 1, flags: 16, wnd: 100, urg: 0 };
+                let seg = wire::pack_tcp(ip4.src, ip4.dst, &t, &[], false);
+                let mut h = ip4;
+                h.protocol = 6;
+                (0, wrap(h, seg[..rng.gen_range(0..20)].to_vec()), "truncated TCP header")
+            }
+            9 => {
+                let a = ArpPacket::new_request(rng.gen::<u64>() & 0xFFFF_FFFF_FFFF, ip(0x0A00_0066), ip(target_ip)).build();
+                (1, a[..rng.gen_range(0..28)].to_vec(), "truncated ARP")
+            }
+            10 => {
+                let mut a = ArpPacket::new_request(77, ip(0x0A00_0066), ip(target_ip)).build();
+                a[6] = rng.gen();
+                a[7] = *rng.pick(&[0u8, 3, 9, 255]);
+                (1, a, "ARP bad operation")
+            }
+            11 => {
+                // DHCP with bad type / non-UTF-8 names / truncated, to the DHCP server port
+                let mut m = DhcpMessage::to_message(DhcpMessage::default()).unwrap().to_vec();
+                match rng.gen_range(0..4) {
+                    0 => m[29] = *rng.pick(&[0u8, 8, 9, 200, 255]),
+                    1 => {
+                        let n = m.len();
+                        m[n - 3] = 0xff;
+                    }
+                    2 => m.truncate(rng.gen_range(0..m.len())),
+                    _ => m[31] = 0x80,
+                }
+                let mut h = ip4;
+                h.dst = DHCP.to_be_bytes();
+                let mut u = wire::pack_udp(h.src, 68, h.dst, 67, &m, false);
+                u.extend_from_slice(&m);
+                (0, wrap(h, u), "malformed DHCP to the server")
+            }
+            12 => {
+                // malformed DHCP towards a client (port 68, wildcard address)
+                let mut m = DhcpMessage::to_message(DhcpMessage::default()).unwrap().to_vec();
+                m[29] = *rng.pick(&[0u8, 9, 255]);
+                let mut h = ip4;
+                h.dst = [0, 0, 0, 0];
+                let mut u = wire::pack_udp(h.src, 67, h.dst, 68, &m, false);
+                u.extend_from_slice(&m);
+                (0, wrap(h, u), "malformed DHCP to a client")
+            }
+            13 => {
+                // malformed DNS query to the authoritative server
+                let mut q = vec![0x12, 0x34, 0, 0, 0, 0, 0, 0, 0, 0, 0, 0];
+                match rng.gen_range(0..3) {
+                    0 => q.extend_from_slice(b"nam"),
+                    1 => q.extend_from_slice(&[0xff, 0xfe, b' ', 0, 1, 0, 1, 0xff, b' ', 0, 1, 0, 1, 0, 0, 0, 0, 0, 4, 1, 2, 3, 4]),
+                    _ => q.extend_from_slice(b"x \0\x01\0\x01x \0\x01\0\x01\0\0\0\0\xff\xff"),
+                }
+                let mut h = ip4;
+                h.dst = [1, 3, 3, 7];
+                let mut u = wire::pack_udp(h.src, 5555, h.dst, 53, &q, false);
+                u.extend_from_slice(&q);
+                (0, wrap(h, u), "malformed DNS query")
+            }
+            14 => {
+                // decodable header, TTL 0 or 1, for another subnet: goes through the router
+                let mut h = ip4;
+                h.ttl = *rng.pick(&[0u8, 1]);
+                h.dst = C.to_be_bytes();
+                (0, wrap(h, udp_to(7000, &payload)), "TTL 0/1 through the router")
+            }
+            _ => {
+                let mut f = wrap(ip4, udp_to(7000, &payload));
+                for _ in 0..rng.gen_range(1..4) {
+                    let i = rng.gen_range(0..f.len().min(28));
+                    f[i] ^= 1 << rng.gen_range(0..8);
+                }
+                (0, f, "bit flips in IPv4/UDP headers")
+            }
+        };
+        out.push(Inj { at_ms: rng.gen_range(0..400), proto, dest, bytes, what: what.to_string() });
+    }
+    out.sort_by_key(|i| i.at_ms);
+    out
+}
+
+pub fn inject(env: &Env, k: u64, d: &mut Delta, rng: &mut rand::rngs::SmallRng) {
+    for case in 0..env.tier.pick(3, 5) {
+        one(env, k, case, d, rng);
+    }
+}
+
+fn one(_env: &Env, k: u64, case: u64, d: &mut Delta, rng: &mut rand::rngs::SmallRng) {
+    d.evaluations += 1;
+    let with_dns = rng.chance(1, 2);
+    let seed: u64 = rng.gen();
+    let udp_log: Log = Arc::new(Mutex::new(vec![]));
+    let tcp_bytes: Arc<Mutex<Vec<u8>>> = Arc::new(Mutex::new(vec![]));
+    let injected: Arc<Mutex<Vec<Inj>>> = Arc::new(Mutex::new(vec![]));
+    let n_udp = 20usize;
+    let n_routed = 5usize;
+    let tcp_total = 20 * 500usize;
+    crate::set_context(&json!({"kind": "C14 raw frame injection", "scenario": k, "case": case, "injection_seed": seed, "dns_server_present": with_dns}));
+    let (status, frames) = {
+        let udp_log = udp_log.clone();
+        let tcp_bytes = tcp_bytes.clone();
+        let injected = injected.clone();
+        run_paused(async move {
+            let n0 = NetworkBuilder::new().mtu(1500).build();
+            let n1 = NetworkBuilder::new().mtu(1500).build();
+            let rec = Recorder::passive();
+            n0.set_verif_hook(rec.clone());
+            n1.set_verif_hook(rec.clone());
+            let t0 = tokio::time::Instant::now();
+            let done = Arc::new(AtomicBool::new(false));
+            let host = |addr: u32, net: &Arc<Network>, gw: u32| {
+                Machine::new()
+                    .with(Udp::new())
+                    .with(Tcp::new())
+                    .with(Ipv4::new([(ip(addr), Recipient::new(0, None)), (ip(0), Recipient::new(0, None))].into_iter().collect()))
+                    .with(Pci::new([net.clone()]))
+                    .with(SocketAPI::new(Some(ip(addr))))
+                    .with(Arp::new().preconfig_subnet(ip(addr), SubnetInfo { mask: Ipv4Mask::from_bitcount(24), default_gateway: ip(gw) }))
+            };
+            let mut machines: Vec<Arc<Machine>> = vec![];
+            // A: sender of legitimate traffic, ends the run
+            {
+                let done = done.clone();
+                let mut parts = AppParts::new(0, udp_log.clone(), t0);
+                parts.body = Some(Box::new(move |machine, me, shutdown| {
+                    Box::pin(async move {
+                        let udp = machine.protocol::<Udp>().unwrap();
+                        let to_b = udp.open_for_sending(me, Endpoints::new(Endpoint::new(ip(A), 6000), Endpoint::new(ip(B), 7000)), machine.clone()).await;
+                        let to_c = udp.open_for_sending(me, Endpoints::new(Endpoint::new(ip(A), 6001), Endpoint::new(ip(C), 7000)), machine.clone()).await;
+                        let mut stream = TcpStream::connect(Endpoint::new(ip(B), 8080), machine.clone()).await.ok();
+                        for i in 0..20u8 {
+                            if let Ok(s) = &to_b {
+                                let _ = s.send(Message::new(vec![0x60, i, i, i]), machine.clone());
+                            }
+                            if (i as usize) < 5 {
+                                if let Ok(s) = &to_c {
+                                    let _ = s.send(Message::new(vec![0x61, i, i, i]), machine.clone());
+                                }
+                            }
+                            if let Some(st) = stream.as_mut() {
+                                let _ = st.write(vec![i; 500]).await;
+                            }
+                            tokio::time::sleep(ms(20)).await;
+                        }
+                        // wait for B to have everything (bounded)
+                        for _ in 0..400 {
+                            if done.load(Ordering::SeqCst) {
+                                break;
+                            }
+                            tokio::time::sleep(ms(25)).await;
+                        }
+                        tokio::time::sleep(ms(300)).await;
+                        shutdown.shut_down_with_status(ExitStatus::Status(7));
+                        tokio::time::sleep(Duration::from_secs(100_000)).await;
+                        drop(stream);
+                    })
+                }));
+                machines.push(with_app(host(A, &n0, R0), 0, || parts).arc());
+            }
+            // B: UDP recorder + TCP reader
+            {
+                let tcp_bytes = tcp_bytes.clone();
+                let done = done.clone();
+                let mut parts = AppParts::new(1, udp_log.clone(), t0);
+                parts.setup = Some(Box::new(move |machine, me| {
+                    Box::pin(async move {
+                        let udp = machine.protocol::<Udp>().unwrap();
+                        udp.listen(me, Endpoint::new(ip(B), 7000), machine.clone()).unwrap();
+                        udp.listen(me, Endpoint::new(ip(0xFFFF_FFFF), 7000), machine.clone()).unwrap();
+                    })
+                }));
+                parts.body = Some(Box::new(move |machine, _me, _shutdown| {
+                    Box::pin(async move {
+                        if let Ok(mut l) = TcpListener::bind(Endpoint::new(ip(B), 8080), machine.clone()).await {
+                            if let Ok(mut s) = l.accept().await {
+                                while tcp_bytes.lock().unwrap().len() < tcp_total {
+                                    match s.read().await {
+                                        Ok(b) => tcp_bytes.lock().unwrap().extend_from_slice(&b),
+                                        Err(_) => break,
+                                    }
+                                }
+                                done.store(true, Ordering::SeqCst);
+                                tokio::time::sleep(Duration::from_secs(100_000)).await;
+                                drop(s);
+                            }
+                        }
+                    })
+                }));
+                machines.push(with_app(host(B, &n0, R0), 0, || parts).arc());
+            }
+            // C behind the router
+            {
+                let mut parts = AppParts::new(2, udp_log.clone(), t0);
+                parts.setup = Some(Box::new(move |machine, me| {
+                    Box::pin(async move {
+                        let udp = machine.protocol::<Udp>().unwrap();
+                        udp.listen(me, Endpoint::new(ip(C), 7000), machine.clone()).unwrap();
+                    })
+                }));
+                machines.push(with_app(host(C, &n1, R1), 0, || parts).arc());
+            }
+            // router
+            {
+                let rt: IpTable<(Option<Ipv4Address>, u32)> = [
+                    (Ipv4Net::new(ip(0x0A00_0000), Ipv4Mask::from_bitcount(24)), (None, 0u32)),
+                    (Ipv4Net::new(ip(0x0A00_0100), Ipv4Mask::from_bitcount(24)), (None, 1u32)),
+                ]
+                .into_iter()
+                .collect();
+                machines.push(
+                    Machine::new()
+                        .with(Pci::new([n0.clone(), n1.clone()]))
+                        .with(Ipv4::new([(ip(R0), Recipient::new(0, None)), (ip(R1), Recipient::new(1, None))].into_iter().collect()))
+                        .with(Arp::new())
+                        .with(ArpRouter::new(rt, vec![ip(R0), ip(R1)]))
+                        .arc(),
+                );
+            }
+            // DHCP server and one client
+            let table: IpTable<Recipient> = [("0.0.0.0/0", Recipient::new(0, None))].into_iter().collect();
+            machines.push(Machine::new().with(Udp::new()).with(Ipv4::new(table.clone())).with(Pci::new([n0.clone()])).with(Arp::new()).with(DhcpServer::new(ip(DHCP), IpRange::new(ip(0x0A00_0080), ip(0x0A00_00A0)))).arc());
+            machines.push(Machine::new().with(Udp::new()).with(Ipv4::new(table.clone())).with(Pci::new([n0.clone()])).with(Arp::new()).with(DhcpClient::new(ip(DHCP))).arc());
+            if with_dns {
+                machines.push(
+                    Machine::new()
+                        .with(Udp::new())
+                        .with(Tcp::new())
+                        .with(Ipv4::new(table.clone()))
+                        .with(Pci::new([n0.clone()]))
+                        .with(Arp::new())
+                        .with(SocketAPI::new(Some(Ipv4Address::DNS_AUTH)))
+                        .with(DnsServer::new(50))
+                        .arc(),
+                );
+            }
+            // attacker
+            {
+                let pci = Pci::new([n0.clone()]);
+                let macs: Vec<Mac> = n0.verif_taps();
+                let mut r2 = <rand::rngs::SmallRng as rand::SeedableRng>::seed_from_u64(seed);
+                let plan = gen_injections(&mut r2, &macs);
+                *injected.lock().unwrap() = plan.clone();
+                let mut parts = AppParts::new(9, udp_log.clone(), t0);
+                parts.body = Some(Box::new(move |machine, _me, _shutdown| {
+                    Box::pin(async move {
+                        let tap = machine.protocol::<Pci>().unwrap().open(0);
+                        let mut now = 0;
+                        for inj in plan {
+                            if inj.at_ms > now {
+                                tokio::time::sleep(ms(inj.at_ms - now)).await;
+                                now = inj.at_ms;
+                            }
+                            let proto = if inj.proto == 0 { TypeId::of::<Ipv4>() } else { TypeId::of::<Arp>() };
+                            let _ = tap.send_pci(Message::new(inj.bytes.clone()), inj.dest, proto);
+                        }
+                    })
+                }));
+                machines.push(with_app(Machine::new().with(pci), 0, || parts).arc());
+            }
+            let status = run_internet_with_timeout(&machines, Duration::from_secs(30)).await;
+            (status, rec.snapshot())
+        })
+    };
+    let inj = injected.lock().unwrap().clone();
+    let events = udp_log.lock().unwrap().clone();
+    let tcp = tcp_bytes.lock().unwrap().clone();
+    d.tally("frames_injected", inj.len() as u64);
+    d.tally("frames_on_wire_during_injection_runs", frames.len() as u64);
+    for i in &inj {
+        d.saw("injected_kinds", i.what.clone());
+        d.nontrivial(crate::fnv_str(&format!("{}|{}|{:?}", i.what, i.bytes.len().min(40), i.dest.is_some())));
+    }
+    let witness = |extra: Value| json!({"scenario": k, "case": case, "injection_seed": seed, "returned": format!("{status:?}"), "injected": inj.iter().map(|i| format!("{}ms {} -> {:?} {}", i.at_ms, i.what, i.dest, crate::hex(&i.bytes[..i.bytes.len().min(48)]))).collect::<Vec<_>>(), "detail": extra});
+    // nothing carrying the attacker's marker may reach an application through a header that cannot decode
+    for e in &events {
+        if e.payload.len() >= 4 && e.payload[..4] == MARK {
+            // only the "TTL" and pure bit-flip classes can legitimately decode; find the injected frame it came from
+            let src = inj.iter().find(|i| i.bytes.len() >= 32 && i.bytes.ends_with(&e.payload));
+            let legit = src.map(|i| i.what.contains("TTL") || i.what.contains("bit flips")).unwrap_or(false);
+            if !legit {
+                d.violation("malformed-frame-reached-application", format!("an application on machine {} received the payload of an injected frame ({})", e.machine, src.map(|i| i.what.clone()).unwrap_or("unidentified".into())), witness(json!({})));
+                return;
+            }
+        }
+    }
+    if status != ExitStatus::Status(7) {
+        d.violation("run-did-not-end-as-scripted", format!("with malformed frames on the wire the run returned {status:?} instead of the scripted Status(7)"), witness(json!({"tcp_bytes": tcp.len()})));
+        return;
+    }
+    let b_got: Vec<&DemuxEvent> = events.iter().filter(|e| e.machine == 1 && e.payload.first() == Some(&0x60)).collect();
+    let c_got: Vec<&DemuxEvent> = events.iter().filter(|e| e.machine == 2 && e.payload.first() == Some(&0x61)).collect();
+    if b_got.len() != n_udp || c_got.len() != n_routed {
+        d.violation("legitimate-datagrams-disturbed", format!("B received {} of {n_udp} and C {} of {n_routed} legitimate datagrams", b_got.len(), c_got.len()), witness(json!({})));
+        return;
+    }
+    let want: Vec<u8> = (0..20u8).flat_map(|i| vec![i; 500]).collect();
+    if tcp != want {
+        d.violation("legitimate-tcp-stream-disturbed", format!("the TCP stream arrived as {} bytes (expected {}), equal prefix {}", tcp.len(), want.len(), tcp.iter().zip(want.iter()).take_while(|(a, b)| a == b).count()), witness(json!({})));
+        return;
+    }
+    d.tally("injection_runs_survived", 1);
+    if case == 0 && k < 8 {
+        d.sample(json!({"kind": "injection run", "injected_frames": inj.len(), "first": inj.iter().take(5).map(|i| format!("{} {}", i.what, crate::hex(&i.bytes[..i.bytes.len().min(32)]))).collect::<Vec<_>>(), "returned": format!("{status:?}")}));
+    }
 }
